@@ -5,6 +5,8 @@ import Treepath.Spec.Eval
 import Treepath.Generated.Budget
 import Treepath.Proofs.MachineLemmas
 import Treepath.Proofs.Budget
+import Treepath.Proofs.NoRescan
+import Treepath.Proofs.DriveX
 /- C20 — traversal halts, doing work proportional to the search space -/
 namespace Treepath.C20
 
@@ -90,6 +92,52 @@ theorem machine_work_bound (steps : Array (Step J)) (src : Src J) (hq : Quiet st
   refine ⟨k, stD, by rw [h1], h2, ?_⟩
   rw [h1]
   exact work_bound _ hp 0 _
+
+/-- **never re-scans, restarts**: on a document whose dicts have unique keys, no match attempt of
+the search — identified by the step's index, the location of the node it is applied to and
+the location it arrives at (or its failure) — is made twice, for every path of keys, indices,
+slices, wildcards and filters with at most one recursive step (no parent step and no comma
+list: those may legitimately visit a node by several routes / ask for an entry twice) -/
+theorem no_attempt_is_made_twice (p : List (Step J)) (d : J) (hd : d.WFK) (hp : okShape p = true)
+    (hs : PredsStamped p) : (topKeys (stream p 0 (.root d))).Nodup :=
+  (stream_keys p hp hs 0 (.root d) hd).1
+
+/-- the premises are met by ordinary paths and documents, and the limits of the statement are
+real: with two recursive steps the same attempt *is* made twice (`$.a.b` is reached below `$.a` and as a member of `$.a`) -/
+example : okShape [Step.key "a", .recur, .idxWc] = true := by decide
+example : (topKeys (stream [.recur, .keyWc] 0 (.root (.obj [("a", .obj [("b", .int 1)])])))).length = 10 := by decide
+example : ¬ (topKeys (stream [.recur, .keyWc, .recur] 0 (.root (.obj [("a", .obj [("b", .obj [("c", .int 1)])])])))).Nodup := by decide
+
+/-- keys of a prefix of a stream are a sublist of the stream's keys -/
+theorem topKeys_ttr_sublist (evs : List (Ev J)) : (topKeys (takeThroughRaise evs)).Sublist (topKeys evs) := by
+  induction evs with
+  | nil => simp [takeThroughRaise]
+  | cons e t ih =>
+    cases e with
+    | raised x => simp [takeThroughRaise, topKeys_raised]
+    | attempt l vi nx st =>
+      cases st with
+      | none => simp only [takeThroughRaise, topKeys_attempt]; exact ih.cons_cons _
+      | some c => simpa [takeThroughRaise, topKeys, List.filterMap_cons, topKey] using ih
+    | predCall c => simpa [takeThroughRaise] using ih
+    | result c => simpa [takeThroughRaise] using ih
+    | fnCall nm a => simpa [takeThroughRaise, topKeys, List.filterMap_cons, topKey] using ih
+    | stop => simpa [takeThroughRaise, topKeys, List.filterMap_cons, topKey] using ih
+
+/-- … and that is what the traverser does: the trace of its complete run (to exhaustion, or
+through the first exception a predicate raises) holds no attempt twice -/
+theorem machine_never_rescans (steps : Array (Step J)) (d : J) (hd : d.WFK) (hc : PredsClean steps)
+    (hp : okShape steps.toList = true) (hs : PredsStamped steps.toList) :
+    ∃ k, (topKeys (hrun J.view steps (.doc d) k freshIter).2).Nodup ∧
+      ((hrun J.view steps (.doc d) k freshIter).1.act = .done ∨
+       ∃ e evs', action J.view steps (.doc d) (hrun J.view steps (.doc d) k freshIter).1 =
+          ((hrun J.view steps (.doc d) k freshIter).1, evs', .raised e)) := by
+  have hnd := no_attempt_is_made_twice steps.toList d hd hp hs
+  rcases full_run_x steps (.doc d) hc with ⟨_, k, stD, h1, h2⟩ | ⟨e, _, k, stU, evs', h1, h2, _⟩
+  · exact ⟨k, by rw [h1]; exact hnd, .inl (by rw [h1]; exact h2)⟩
+  · refine ⟨k, ?_, .inr ⟨e, evs', by rw [h1]; exact h2⟩⟩
+    rw [h1]
+    exact (topKeys_ttr_sublist _).nodup hnd
 
 /-- every `__next__` performs at most `loopBudget` actions: `next` is defined by structural
 recursion on the budget (Lean accepts the definition only because it terminates), and when
